@@ -595,3 +595,15 @@ PROPS["C16"]["rule"] += _LATE
 for _p in ("C12", "C13"):
     PROPS[_p]["domains"].append("watcher-late")
     PROPS[_p]["rule"] += _LATE
+
+_SYNCRACE = (" sync-race: histories whose last run is cancelled at the very moment the watcher's sync event becomes ready, while the runner is kept busy "
+             "forwarding a status event to a consumer that is not reading — when the runner returns to its select both are ready and Go picks. Each "
+             "history is played 6 (thorough: 40) times; the implementation must show one of the model's two behaviours (`runOneAtSync … false`: nothing "
+             "started; `… true`: the first task is started, finished, and the run ends with the context error), and in either the stream is well-formed, "
+             "the channel closes, no request follows, and the status watcher the runner started has been stopped by then (every exit of the runner goes "
+             "through its `complete`). The whole-run sys domains check the last point on every run too (`watcherStopped`), and additionally schedule the "
+             "watcher's fatal error while a mutating request is in flight, alone and together with a cancellation at the same, an earlier or a later "
+             "request: a cancelled run ends with the context error (theorem C12.cancelled_run_ends_with_the_context_error).")
+for _p in ("C12", "C13"):
+    PROPS[_p]["domains"].append("sync-race")
+    PROPS[_p]["rule"] += _SYNCRACE
